@@ -188,6 +188,19 @@ def r2(ctx, fn, blk, st, il, into_h, it_h, ih):
                                   str(N2.norm(strip(src["b"])["i"])) if strip(src["b"]).get("k") == "index" else "?", str(N2.norm(src["i"]))))
                 except (ValueError, KeyError):
                     pairs.append(("?",) * 5)
+            fm = []
+            for x in walk(arm["body"]):
+                xx = strip(x)
+                if xx.get("k") == "index" and strip(xx["b"]).get("k") == "index" and pretty(strip(strip(xx["b"])["b"])) == "fmaxs":
+                    try:
+                        fm.append((str(N2.norm(strip(xx["b"])["i"])), str(N2.norm(xx["i"]))))
+                    except ValueError:
+                        fm.append(("?", "?"))
+            gm = [str(N2.norm(x["args"][0])) for x in walk(arm["body"]) if x.get("k") == "mcall" and x["name"] == "get_mut" and pretty(strip(x["recv"])) == "maxpools"]
+            fm = sorted(set(fm))
+            ctx.check("R17.2", "maxpool-indices:" + v, fm == [("it", "idx")] and gm == ["j"], "maxpool-index-bookkeeping:%s:%s:%s" % (v, fm, gm), where,
+                      "maxpools[j] combined with fmaxs[iteration][idx]",
+                      "the %s arm updates the max-pool indices of %s with fmaxs%s; layer j of the range is entry idx of each iteration's list" % (v, gm, fm))
             want = [("preactivated", "j", "fpres", "it", "idx"), ("activated", "1 + j", "fposts", "it", "idx")]
             ctx.check("R17.2", "operands:" + v, sorted(pairs) == sorted(want), "accumulation-operands:%s:%s" % (v, pairs)[:120], where,
                       "preactivated[j] <- fpres[it][idx]; activated[j+1] <- fposts[it][idx]",
@@ -272,6 +285,6 @@ def run(ctx):
     for l in spatial.LAYERS:
         ctx.guard("R17.4", l, spatial.flat_rechunk, ctx, "R17.4", l)
     ctx.floor("R17.1", 11, "")
-    ctx.floor("R17.2", 3 + 5 + 4 + 5 + 1, "")
+    ctx.floor("R17.2", 3 + 5 + 4 + 4 + 5 + 1, "")
     ctx.floor("R17.3", 5, "key, validation, shape, counts, stored")
     ctx.floor("R17.4", 6, "")
